@@ -35,3 +35,11 @@ CHECKS = {
         "assumptions": ["EncodeSrc's own range panic counts as the compile-time refusal"],
     },
 }
+
+LEVEL_TEXT = {
+    "C11": "Every method of the value algebra is executed symbolically from its SSA with operand kinds forked and all 64-bit payloads (ints, float bit patterns incl. NaN/inf/-0, string bytes) left symbolic; each documented law is an assertion the solver must prove unsat-negated on every path, and every Go panic path must be infeasible. Bounded only in container length/nesting.",
+    "C14": "Lexer.Next and all state functions are executed symbolically over every input of the stated length with all bytes symbolic; span/text/gap/grouping/line-break/end-marker laws and invariance under inserted blanks/comments are solver-decided assertions; non-termination shows up as fuel exhaustion and is confirmed by native timeout.",
+    "C15": "The encode/decode functions are loop-free bit manipulation: the solver decides round-trip equality for all 2^64 addresses, all opcodes and operand kinds at full width (no unrolling), so within the stated argument ranges this is a complete decision, cross-checked by cvc5 on every assertion query.",
+}
+
+NOT_APPLICABLE = {}
